@@ -1082,10 +1082,23 @@ def normaliser_rule(syn, prop, rule="C17.R7", crate=None):
             out = []
             for wb in range(b.n):
                 sw = b.term(wb)
-                if sw["k"] != "switch" or b.is_cleanup(wb) or op_local(sw["discr"]) is None:
+                if sw["k"] != "switch" or b.is_cleanup(wb):
                     continue
-                cur, pos = op_local(sw["discr"]), True
+                cur = op_local(sw["discr"])
+                dpl = op_place(sw["discr"])
+                if cur is None and dpl is not None and len(dpl["p"]) == 1 and re.match(r"^\.\d+$", dpl["p"][0]):
+                    # `match (comp, flag) { .. }`: the flag is a component of the scrutinee tuple
+                    tds = [d for d in M.real_defs(b, dpl["l"]) if not b.is_cleanup(d[0])]
+                    if len(tds) == 1 and tds[0][1] != "term" and tds[0][2]["rv"]["k"] == "agg" and tds[0][2]["rv"].get("tuple"):
+                        cur = op_local(tds[0][2]["rv"]["ops"][int(dpl["p"][0][1:])])
+                if cur is None:
+                    continue
+                pos = True
                 ds = [d for d in M.def_sites(b, cur) if not b.is_cleanup(d[0])]
+                for _ in range(3):      # through plain copies of the flag
+                    if len(ds) == 1 and ds[0][1] != "term" and ds[0][2]["rv"]["k"] == "use" and op_local(ds[0][2]["rv"]["op"]) is not None:
+                        cur = op_local(ds[0][2]["rv"]["op"])
+                        ds = [d for d in M.def_sites(b, cur) if not b.is_cleanup(d[0])]
                 if len(ds) == 1 and ds[0][1] != "term" and ds[0][2]["rv"]["k"] == "unop" and ds[0][2]["rv"]["op"] == "Not" and op_local(ds[0][2]["rv"]["a"]) is not None:
                     cur, pos = op_local(ds[0][2]["rv"]["a"]), False
                     ds = [d for d in M.def_sites(b, cur) if not b.is_cleanup(d[0])]
@@ -1160,6 +1173,25 @@ def normaliser_purity_rule(crate, prop, rule="C06.R7"):
                 it = origins(b, op_local(o["t"]["args"][0]), identity=M.IDENTITY_CALLS + [r"slice::<impl \[T\]>::iter$", r"IntoIterator>::into_iter$", r"Iterator::(map|cloned|copied)$", r"Deref::deref$"], visited=vis_l)
                 from_stack = any(x["kind"] == "call" and x["t"]["dst"]["l"] in stack_locals for x in it) or bool(vis_l & stack_locals)
                 kinds.append("collect(stack)" if from_stack else "collect(?)")
+                good = good and from_stack
+            elif o["kind"] == "call" and fn_matches(o["t"], r"path::PathBuf::(new|with_capacity)$"):
+                # an empty path that the components of the stack are pushed onto, one by one
+                buf = o["t"]["dst"]["l"]
+                holders = {buf}
+                for bb in range(b.n):
+                    for st in b.stmts(bb):
+                        if st["k"] == "assign" and st["rv"]["k"] == "ref" and st["rv"]["pl"]["l"] in holders and not st["dst"]["p"]:
+                            holders.add(st["dst"]["l"])
+                pushes = [t2 for bb, t2 in b.calls() if not b.is_cleanup(bb) and fn_matches(t2, r"path::PathBuf::push$") and t2["args"] and op_local(t2["args"][0]) in holders]
+                other = [t2 for bb, t2 in b.calls() if not b.is_cleanup(bb) and not fn_matches(t2, r"path::PathBuf::push$", r"Deref", r"AsRef", r"path::PathBuf::(as_path|capacity|reserve)$")
+                         and t2["args"] and op_local(t2["args"][0]) in holders and "&mut" in ((t2.get("arg_tys") or [""])[0])]
+                from_stack = bool(pushes) and not other
+                for t2 in pushes:
+                    vis_l = set()
+                    origins(b, op_local(t2["args"][1]), identity=M.IDENTITY_CALLS + [r"slice::<impl \[T\]>::iter$", r"IntoIterator>::into_iter$", r"Iterator::(map|cloned|copied)$", r"Iterator>::next$", r"Iterator::next$", r"Deref::deref$", r"AsRef.*::as_ref$", r"Component::<'_>::as_os_str$", r"Component::as_os_str$"], visited=vis_l)
+                    if not (vis_l & stack_locals):
+                        from_stack = False
+                kinds.append("push each(stack)" if from_stack else "push(?)")
                 good = good and from_stack
             elif o["kind"] == "call" and fn_matches(o["t"], r"convert::From::from$", r"PathBuf::from$") and (op_const(o["t"]["args"][0]) or {}).get("str") == ".":
                 kinds.append('"."')
